@@ -16,7 +16,7 @@ RULE = ("Cases: two span lists (0..5 spans, start<=end, endpoints from a small i
         "Distinct = distinct case JSON.")
 EXPLANATION = "exhaustive sub-domain: all pairs of span lists with <=2 spans over the grid {0,1,2,3}, all 16 relation pairs"
 ASSUMPTIONS = ["span endpoints are ints/floats with start<=end"]
-FLOORS = {"mixed-relations": (0.6, None)}
+FLOORS = {"mixed-relations": (0.373, None)}
 SHARDS = {"quick": 12, "thorough": 14}
 CASE_FUEL = 500000
 
